@@ -90,6 +90,10 @@ func (c *FCtx) numberSites(fi *FuncInfo) {
 		for _, o := range c.callOrd {
 			have["call "+o] = true
 			have["before call "+o] = true
+			if k := strings.LastIndex(o, "#"); k > 0 {
+				have["call "+o[:k]+"#*"] = true
+				have["before call "+o[:k]+"#*"] = true
+			}
 		}
 		for _, o := range c.stmtOrd {
 			have["before "+o] = true
@@ -543,8 +547,13 @@ func (c *FCtx) runAts(e *Env, st *State, where string, extra map[string]TV) {
 	if c.Contract == nil {
 		return
 	}
+	// "call f#*" / "before call f#*": every call of f
+	wild := ""
+	if k := strings.LastIndex(where, "#"); k > 0 && (strings.HasPrefix(where, "call ") || strings.HasPrefix(where, "before call ")) {
+		wild = where[:k] + "#*"
+	}
 	for _, at := range c.Contract.Ats {
-		if at.Where != where {
+		if at.Where != where && (wild == "" || at.Where != wild) {
 			continue
 		}
 		for _, cl := range at.Clauses {
